@@ -48,6 +48,13 @@ type shardResult struct {
 	wall     float64
 }
 
+type snapDoc struct {
+	Counters map[string]int64         `json:"counters"`
+	Samples  map[string][]interface{} `json:"samples"`
+	Notes    map[string]string        `json:"notes"`
+	Wall     float64                  `json:"wall_s"`
+}
+
 type runner struct {
 	def     *propDef
 	tier    string
@@ -158,6 +165,7 @@ func (r *runner) superviseShard(i int) *shardResult {
 			return res
 		}
 		done := false
+		var last *snapDoc
 		sc := bufio.NewScanner(stdout)
 		sc.Buffer(make([]byte, 1<<20), 64<<20)
 		for sc.Scan() {
@@ -177,33 +185,34 @@ func (r *runner) superviseShard(i int) *shardResult {
 				if json.Unmarshal(line, &v) == nil {
 					res.viols = append(res.viols, v)
 				}
-			case "done":
-				var d struct {
-					Counters map[string]int64         `json:"counters"`
-					Samples  map[string][]interface{} `json:"samples"`
-					Notes    map[string]string        `json:"notes"`
-					Wall     float64                  `json:"wall_s"`
-				}
+			case "done", "snap":
+				var d snapDoc
 				if json.Unmarshal(line, &d) == nil {
-					for k, v := range d.Counters {
-						if strings.HasPrefix(k, "max_") {
-							if v > res.counters[k] {
-								res.counters[k] = v
-							}
-						} else {
-							res.counters[k] += v
-						}
+					last = &d
+					if head.T == "done" {
+						done = true
 					}
-					for k, v := range d.Samples {
-						res.samples[k] = append(res.samples[k], v...)
-					}
-					for k, v := range d.Notes {
-						res.notes[k] = v
-					}
-					res.wall += d.Wall
-					done = true
 				}
 			}
+		}
+		if last != nil {
+			// counters of this worker process (final, or the latest snapshot if it died)
+			for k, v := range last.Counters {
+				if strings.HasPrefix(k, "max_") {
+					if v > res.counters[k] {
+						res.counters[k] = v
+					}
+				} else {
+					res.counters[k] += v
+				}
+			}
+			for k, v := range last.Samples {
+				res.samples[k] = append(res.samples[k], v...)
+			}
+			for k, v := range last.Notes {
+				res.notes[k] = v
+			}
+			res.wall += last.Wall
 		}
 		werr := cmd.Wait()
 		r.mu.Lock()
@@ -425,8 +434,15 @@ func cmdRun(prop, tier string) int {
 		}
 		return cands[i].Key < cands[j].Key
 	})
+	if len(cands) > 0 {
+		var sb strings.Builder
+		for _, v := range cands {
+			fmt.Fprintf(&sb, "%s\t%s\texp=%s\tobs=%s\n", v.Prop, v.Key, v.Exp, v.Obs)
+		}
+		os.WriteFile(filepath.Join(buildDir, "last-candidates-"+prop+".txt"), []byte(sb.String()), 0644)
+	}
 	known := loadKnown()
-	const maxConfirm = 24
+	const maxConfirm = 12
 	nViol, nKnown, nUnconfirmed := 0, 0, 0
 	knownPrinted := map[string]bool{}
 	var out []string
@@ -457,7 +473,9 @@ func cmdRun(prop, tier string) int {
 		}
 		nViol++
 		out = append(out, fmt.Sprintf("VIOLATION property=%s replay=%s", prop, file))
-		out = append(out, fmt.Sprintf("  case: %s\n  expected: %s\n  observed: %s", v.Key, v.Exp, v.Obs))
+		if nViol <= 6 {
+			out = append(out, fmt.Sprintf("  case: %s\n  expected: %s\n  observed: %s", v.Key, v.Exp, v.Obs))
+		}
 	}
 	for _, l := range out {
 		fmt.Println(l)
